@@ -69,11 +69,13 @@ Proof.
   intros H Hp. pose proof (wf_countmax r H) as HM. unfold bm_next_gen.
   set (p1 := Z.to_N (prev + 1)).
   assert (Hp1 : p1 <= IDXMAX) by (unfold p1; lia).
-  assert (Ei0 : to_unsigned (Z.quot (prev + 1) 64) = p1 / 64).
-  { unfold to_unsigned, p1. rewrite Z.quot_div_nonneg by lia. unfold IDXMAX in *.
-    rewrite Z.mod_small by (split; [apply Z.div_pos; lia|apply Z.div_lt_upper_bound; lia]).
-    rewrite Z2N.inj_div by lia. reflexivity. }
-  rewrite Ei0. set (i0 := p1 / 64) in *.
+  assert (Enx : to_unsigned (prev + 1) = p1).
+  { unfold to_unsigned, p1. rewrite Z.mod_small; [reflexivity|]. unfold IDXMAX in *. lia. }
+  cbv zeta. rewrite Enx. unfold SUB_INDEX, BPL.
+  assert (Eti : to_int p1 = (prev + 1)%Z).
+  { rewrite to_int_small by (unfold IDXMAX in *; lia). unfold p1. lia. }
+  rewrite Eti.
+  set (i0 := p1 / 64) in *.
   set (T := bs_inter (absn neg r) (bs_from p1)).
   set (tw := fun i => if i <? i0 then 0 else if i =? i0 then N.land (rdn neg r i) (ULBIT_FROM (p1 mod 64)) else rdn neg r i).
   assert (Hm1 : p1 mod 64 < 64) by (apply N.mod_lt; discriminate).
